@@ -19,6 +19,22 @@ def tr_psl(log):
 
 
 PROPS = {
+    "C01": {
+        "modules": ["PasskeyVerif.Props.C01"],
+        "props_files": ["PasskeyVerif/Props/C01.lean"],
+        "translators": [tr_psl],
+        "harness": [["gen", "C01"]],
+        "trusted": COMMON_TRUSTED + [
+            "modelled by hand: RpIdVerifier::{assert_domain, assert_web_rp_id, assert_valid_rp_id, assert_android_rp_id}, host_to_ascii, is_equal_or_label_suffix, has_empty_label of passkey-client/src/lib.rs",
+            "outside the model, passed in as observed values: Url::{scheme,domain} (url crate), idna::domain_to_ascii (the IDNA mapping is an assumption; the theorems hold for any such function)",
+            "default provider: the C10 model and theorems (table and rules regenerated from /repo)",
+            "the end-to-end part (Client::register/authenticate reach the authenticator only with the RP ID of an accepted pair) is a mini-model checked by correspondence and by the Spec on the implementation's recorded store/user-validation events; the full client model is C02/C03",
+        ],
+        "assumptions": ["idna::domain_to_ascii maps a name to the ASCII form the public suffix list is keyed on", "Url::domain() returns the origin's DNS host name (none for IP literals)"],
+        "level_text": "Kernel-checked: for every verifier configuration (any provider, any IDNA function, localhost flag), origin and requested RP ID, acceptance implies effective-RP-ID identity, label-aligned suffix, https (web) and registrability, with the localhost exception; for the default provider registrability equals the PSL specification over the shipped list (via C10), so public suffixes are never accepted. The model is tied to lib.rs by a differential stream over generated origins/RP IDs (all error codes compared) and the Spec is evaluated on every accepted pair and on the store/user-validation events of end-to-end ceremonies.",
+        "level_note": "Trusted: Lean kernel; axioms propext/Classical.choice/Quot.sound; hand model of RpIdVerifier (checked on explored inputs); url and idna crates (observed); C10's trusted base for the default provider.",
+        "rule": "corpus of formerly mis-accepted pairs; 4000 (thorough 30000) generated (host shape x scheme x port x web/android) x (RP ID absent/equal/label suffix/character suffix/prefixed/unrelated/empty/dotted/localhost/public suffix) x localhost flag x provider (default/always/never); every rule of the list (quick: a tenth) as host and as RP ID; one in eight also end to end through Client::register/authenticate.",
+    },
     "C10": {
         "modules": ["PasskeyVerif.Props.C10", "PasskeyVerif.Props.C10Table", "PasskeyVerif.Props.C10Rules"],
         "props_files": ["PasskeyVerif/Props/C10.lean", "PasskeyVerif/Props/C10Table.lean", "PasskeyVerif/Props/C10Rules.lean"],
